@@ -15,3 +15,25 @@ int fx2_back_scan_unbounded(const char *dest, size_t dmax, int c) {     /* runs 
     while (*p != c) p--;
     return (int)(p - dest);
 }
+/* measured extents: a pointer without a declared size, measured with a bounded length function, is read for at most that many elements (+ terminator) */
+#include <wchar.h>
+#include <stdlib.h>
+size_t fx2_measured_good(char *out, const wchar_t *arg, size_t prec) {
+    size_t l = wcsnlen(arg, prec);
+    return wcstombs(out, arg, l);
+}
+size_t fx2_measured_over(char *out, const wchar_t *arg, size_t prec, size_t k) {    /* byte budget larger than the measured length: reads on behind it */
+    size_t l = wcsnlen(arg, prec);
+    return wcstombs(out, arg, l * k);
+}
+/* a search function nested in another one: the callee only reads dest, the length handed down must stay inside dmax */
+extern int _memrchr_s_chk(const void *dest, size_t dmax, int ch, void **result, size_t destbos);
+int fx2_nested_read_over(const char *dest, size_t dmax, void **r) {
+    if (!dest || !dmax) return 1;
+    return _memrchr_s_chk(dest, dmax + 1, 'x', r, (size_t)-1);
+}
+int _memrchr_s_chk(const void *dest, size_t dmax, int ch, void **result, size_t destbos) {
+    const unsigned char *p = dest; (void)destbos;
+    while (dmax) { dmax--; if (p[dmax] == (unsigned char)ch) { *result = (void *)(p + dmax); return 0; } }
+    *result = 0; return 409;
+}
